@@ -33,7 +33,7 @@ EXTENDS Integers, Sequences, FiniteSets, TLC, Json
 CONSTANTS
     NCalls,        \* calls are 1..NCalls
     MaxDials,      \* dial ids = connection ids 1..MaxDials
-    Policy,        \* "code" | "any"
+    Policy,        \* "code" | "any" | "noretry" (non-vacuity)
     MaxRetry,      \* the code's constant (2)
     AttemptBound,  \* the contract's bound on attempts / connections per query (4)
     RandomSelect,  \* deviation D2
@@ -187,12 +187,13 @@ Install(c) ==
     /\ UNCHANGED <<att, isNew, cur, ctxDone, res, mydial, writes, used, failOK, startedClosed, val, dialedFor,
                    health, closed, once, armed, srvq, owe, rdrVars, tVars, dialVars>>
 
-ArmQ(c) ==
+\* k = kind of the deadline the code arms (the design arms the 6 s query timeout)
+ArmQ(c, k) ==
     /\ MyTurnC(c)
     /\ pc[c] = "arm"
-    /\ armed' = [armed EXCEPT ![cur[c]] = "query"]
+    /\ armed' = [armed EXCEPT ![cur[c]] = k]
     /\ pc' = [pc EXCEPT ![c] = "write"]
-    /\ H([a |-> "SetDeadline", x |-> cur[c], k |-> "query"])
+    /\ H([a |-> "SetDeadline", x |-> cur[c], k |-> k])
     /\ UNCHANGED <<att, isNew, cur, slot, ctxDone, res, mydial, chistVars,
                    health, closed, once, waiting, srvq, owe, rdrVars, tVars, dialVars, panic>>
 
@@ -213,7 +214,8 @@ WriteReq(c) ==
 
 WriteOk(c) ==
     /\ Calm
-    /\ pc[c] = "writing" /\ ~closed[cur[c]] /\ health[cur[c]] \in {"ok", "silent", "eof"}
+    \* (a write that was pending when the connection got closed may still have left: it may return nil)
+    /\ pc[c] = "writing" /\ health[cur[c]] \in {"ok", "silent", "eof"}
     /\ pc' = [pc EXCEPT ![c] = "wait"] /\ wok' = [wok EXCEPT ![c] = TRUE] /\ UNCHANGED shared
     /\ H([a |-> "WriteRet", x |-> cur[c], c |-> c, ok |-> TRUE])
     /\ UNCHANGED <<att, isNew, cur, slot, ctxDone, res, mydial, writes, used, delivered, failOK, startedClosed, val, dialedFor, connVars, rdrVars, tVars, dialVars, panic>>
@@ -251,7 +253,9 @@ SeeCtx(c) ==
     /\ NoH
     /\ UNCHANGED <<att, isNew, cur, slot, ctxDone, mydial, chistVars, connVars, rdrVars, tVars, dialVars, panic>>
 
-MayRetry(c) == IF Policy = "code" THEN ~isNew[c] /\ att[c] <= MaxRetry + 1 ELSE att[c] <= 6
+MayRetry(c) == CASE Policy = "code" -> ~isNew[c] /\ att[c] <= MaxRetry + 1
+                 [] Policy = "noretry" -> FALSE
+                 [] OTHER -> att[c] <= 6
 MayFail(c) == IF Policy = "code" THEN ~(~isNew[c] /\ att[c] <= MaxRetry + 1) ELSE TRUE
 
 Retry(c) ==
@@ -355,12 +359,12 @@ Take(x) ==
     /\ NoH
     /\ UNCHANGED <<callVars, chistVars, health, closed, once, armed, srvq, owe, rmsg, tVars, dialVars, panic>>
 
-ArmIdle(x) ==
+ArmIdle(x, k) ==
     /\ MyTurnR(x)
     /\ rpc[x] = "armIdle"
-    /\ armed' = IF "idle_before_arm" \in Dev THEN armed ELSE [armed EXCEPT ![x] = "idle"]
+    /\ armed' = IF "idle_before_arm" \in Dev THEN armed ELSE [armed EXCEPT ![x] = k]
     /\ rpc' = [rpc EXCEPT ![x] = "setIdle"]
-    /\ H([a |-> "SetReadDeadline", x |-> x, k |-> "idle"])
+    /\ H([a |-> "SetReadDeadline", x |-> x, k |-> k])
     /\ UNCHANGED <<callVars, chistVars, health, closed, once, waiting, srvq, owe, rmsg, rw, tVars, dialVars, panic>>
 
 SetIdleEff(x) == idle' = IF ~tclosed /\ x \in conns THEN idle \cup {x} ELSE idle
@@ -521,13 +525,13 @@ Cancel(c) ==
 
 ------------------------------------------------------------------------------
 CallStep(c) ==
-    \/ Start(c) \/ GetIdle(c) \/ LeaveCtx(c) \/ LeaveClosed(c) \/ Install(c) \/ ArmQ(c) \/ WriteReq(c)
+    \/ Start(c) \/ GetIdle(c) \/ LeaveCtx(c) \/ LeaveClosed(c) \/ Install(c) \/ ArmQ(c, "query") \/ WriteReq(c)
     \/ TakeReply(c) \/ SeeClose(c) \/ SeeCtx(c) \/ Retry(c) \/ Fail(c) \/ CallCweA(c) \/ CallCweB(c)
 CallProgress(c) ==   \* everything but Start (a call need not be started)
-    \/ GetIdle(c) \/ LeaveCtx(c) \/ LeaveClosed(c) \/ Install(c) \/ ArmQ(c) \/ WriteReq(c)
+    \/ GetIdle(c) \/ LeaveCtx(c) \/ LeaveClosed(c) \/ Install(c) \/ ArmQ(c, "query") \/ WriteReq(c)
     \/ TakeReply(c) \/ SeeClose(c) \/ SeeCtx(c) \/ Retry(c) \/ Fail(c) \/ CallCweA(c) \/ CallCweB(c)
     \/ WriteOk(c) \/ WriteErr(c)
-RdrStep(x) == Take(x) \/ ArmIdle(x) \/ SetIdle(x) \/ Hand(x) \/ RdrCweA(x) \/ RdrCweB(x)
+RdrStep(x) == Take(x) \/ ArmIdle(x, "idle") \/ SetIdle(x) \/ Hand(x) \/ RdrCweA(x) \/ RdrCweB(x)
 DialStep(d) == Register(d) \/ HandOver(d) \/ Abandon(d)
 CloserStep == TCloseLock \/ (\E x \in ConnIds : TCloseOne(x)) \/ TCloseEnd
 DialRet(d) == DialOk(d) \/ DialErr(d)
